@@ -121,6 +121,21 @@ type ledgerRun struct {
 func ledgerNext(t *rapid.T, m *ledgerModel, nKeys int, lastOp *LOp) LOp {
 	k := byte(unif(t, nKeys, "key"))
 	v := uint32(1 + unif(t, 1000, "val"))
+	if pct(t, 35, "oldValue") {
+		// a value this key holds or held in some version: writes that change nothing, and items re-created as they were
+		var olds []uint32
+		if cv, ok := m.consView(k); ok {
+			olds = append(olds, cv)
+		}
+		for vi := len(m.committed) - 1; vi >= 0 && len(olds) < 4; vi-- {
+			if ov, ok := m.committed[vi][k]; ok {
+				olds = append(olds, ov)
+			}
+		}
+		if len(olds) > 0 {
+			v = pick(t, olds, "oldVal")
+		}
+	}
 	visibleCons := func() []byte {
 		var ks []byte
 		for i := 0; i < nKeys; i++ {
@@ -353,12 +368,28 @@ func applyLedgerOp(p **ledgerPair, m *ledgerModel, op LOp, feats map[string]bool
 		if len(m.cons) > 0 || len(m.mem) > 0 {
 			feats["reopen_with_pending_overlay"] = true
 		}
-		(*p).close()
-		np, err := openLedgerPair((*p).dirs)
-		if err != nil {
-			return fmt.Errorf("reopen: %v", err)
+		np := *p
+		if len(m.cons) == 0 && len(m.mem) == 0 {
+			// nothing pending: only the instances 1.. are closed and opened again, instance 0 keeps running - what an
+			// instance remembers of its own past must not influence what it commits from here on
+			feats["partial_reopen"] = true
+			for i := 1; i < nLedgers; i++ {
+				_ = np.l[i].Close()
+				l, xerr := ledger.NewFinalityLedger[*kvItem]("kv", np.dirs[i], 16, func() *kvItem { return &kvItem{} })
+				if xerr != nil {
+					return fmt.Errorf("reopen: %v", xerr)
+				}
+				np.l[i] = l
+			}
+		} else {
+			(*p).close()
+			var err error
+			np, err = openLedgerPair((*p).dirs)
+			if err != nil {
+				return fmt.Errorf("reopen: %v", err)
+			}
+			*p = np
 		}
-		*p = np
 		m.cons, m.mem = map[byte]*uint32{}, map[byte]*uint32{}
 		for i := 0; i < nLedgers; i++ {
 			if v := np.l[i].Version(); v != int64(len(m.committed)-1) {
@@ -368,6 +399,16 @@ func applyLedgerOp(p **ledgerPair, m *ledgerModel, op LOp, feats map[string]bool
 	case "setf":
 		if pv, ok := m.cons[op.K]; ok && pv == nil {
 			feats["set_after_delete_same_interval"] = true
+		}
+		if cv, ok := m.latest()[op.K]; ok && cv == op.V {
+			feats["set_to_the_committed_value"] = true
+		} else if !ok {
+			for vi := len(m.committed) - 2; vi >= 0; vi-- {
+				if ov, was := m.committed[vi][op.K]; was && ov == op.V {
+					feats["recreated_with_a_value_held_before_a_committed_delete"] = true
+					break
+				}
+			}
 		}
 		fresh[op.K] = wasFresh(op.K)
 		v := op.V
